@@ -1,11 +1,14 @@
 """C09 - Black-Scholes prices respect no-arbitrage structure.
 R1 put-call parity and binary complement (identities between two flag cases of the repo's own code); R2 barrier constant and
 continuity of the lookback price where the running maximum crosses the strike; R3 signs of the European Greeks on the open
-domain (monotone/convex in spot, non-decreasing in volatility and time to maturity), range of binary prices."""
+domain (monotone/convex in spot, non-decreasing in volatility and time to maturity), range of binary prices; R4 the ordering clauses (call between intrinsic value and
+spot, one-touch between the European binary and 1, lookback above the European call and above the locked-in payoff) by sign
+certificates: positivity by structure, or a signed derivative plus a boundary value / limit."""
 import sympy as sp
 
 from .. import bsterms as B
 from ..extreal import ExtReal, fin
+from ..algebra import ncdf as ncdf_, npdf as npdf_
 from ..report import AnalysisError, Finding
 
 tS, vS, KS = sp.Symbol("t", positive=True), sp.Symbol("v", positive=True), sp.Symbol("K", positive=True)
@@ -86,3 +89,72 @@ def check(ctx, run):
         run.oblige("C09.R3", f"{fname} in [0,1]", ok, str(e)[:60])
         if not ok:
             run.fail(Finding("C09.R3", fi.qualname, str(e)[:100], "the binary call price is not a normal cdf value", file=str(prog.modules[fi.module].path), line=fi.node.lineno))
+    inequalities_rule(ctx, run)
+
+
+def inequalities_rule(ctx, run):
+    """R4: the ordering clauses of the statement, each by a sign certificate on the repo's own price terms (signcert.py):
+    (a) (S-K)+ <= call <= S; (b) one-touch >= European binary call; (c) one-touch <= 1 below the barrier;
+    (d) lookback >= European call in the regime M < K; (e) lookback >= locked-in payoff M-K in the regime M >= K;
+    (f) lookback >= European call in the regime M >= K (non-decreasing in M, continuous at M = K)."""
+    from .. import signcert as SC
+    prog, interp = ctx.prog, ctx.interp
+    run.require("C09.R4", 8)
+    run.trusted += ["lemma: a differentiable function with a signed derivative on an interval is monotone there, so its sign follows from its value at the end of the interval",
+                    "Phi in (0,1), phi > 0, Phi' = phi, phi'(x) = -x phi(x)"]
+    S, K, t, v, M = B.S, B.K, B.t, B.v, B.M
+    w = v * sp.sqrt(t)
+    fe = prog.functions.get(B.F + "bs_european_price")
+    fa = prog.functions.get(B.F + "bs_american_binary_price")
+    fl_ = prog.functions.get(B.F + "bs_lookback_price")
+
+    def ob(label, ok, detail, fi, why):
+        run.oblige("C09.R4", label, bool(ok), str(detail)[:200], sample={"rule": "C09.R4", "inequality": label, "certificate": str(detail)[:200]})
+        if not ok:
+            run.fail(Finding("C09.R4", fi.qualname, f"{label}: {str(detail)[:200]}", why, file=str(prog.modules[fi.module].path), line=fi.node.lineno))
+
+    # ---- (a) European call between intrinsic value and spot
+    _, call, _ = B.extract(prog, interp, "bs_european_price", None, call=True)
+    cc = B.concretize(call)
+    dct = sp.simplify(sp.diff(cc, t))
+    ob("european call is increasing in time to maturity (d price / d tau > 0)", dct.is_positive, dct, fe, "the call price must increase with time to maturity")
+    Q = sp.Symbol("Q", positive=True)
+    lim_itm = sp.simplify(sp.limit(cc.subs(S, K * (1 + Q)), t, 0, "+") - K * Q)
+    lim_otm = sp.simplify(sp.limit(cc.subs(S, K / (1 + Q)), t, 0, "+"))
+    lim_inf = sp.simplify(sp.limit(cc, t, sp.oo) - S)
+    ob("european call >= (S-K)+ : increasing in tau from the limit (S-K)+ at tau -> 0+", lim_itm == 0 and lim_otm == 0, f"limits minus payoff: {lim_itm}, {lim_otm}", fe, "the call is worth at least its intrinsic value")
+    ob("european call <= S : increasing in tau towards the limit S at tau -> oo", lim_inf == 0, f"limit minus S: {lim_inf}", fe, "the call is worth at most the spot")
+    # ---- (b), (c) one-touch
+    _, ab, _ = B.extract(prog, interp, "bs_american_binary_price", "below")
+    _, eb, _ = B.extract(prog, interp, "bs_european_binary_price", None, call=True)
+    diff_ab = sp.simplify(ab - eb)
+    ob("one-touch >= european binary call below the barrier", SC.positive(diff_ab), diff_ab, fa, "touching the barrier at any time is at least as likely as ending above it")
+    d_ab = sp.diff(SC.lift(ab), S)
+    at_k = sp.simplify(B.concretize(ab).subs(S, K) - 1)
+    ob("one-touch <= 1 below the barrier: increasing in spot and equal to 1 at S = K", SC.positive(d_ab) and at_k == 0, f"d/dS = {d_ab}; value at S=K minus 1 = {at_k}", fa, "a one-touch option is worth at most one")
+    # ---- (d), (e), (f) lookback
+    _, p0, _ = B.extract(prog, interp, "bs_lookback_price", "below")
+    _, p1, _ = B.extract(prog, interp, "bs_lookback_price", "above")
+    x = sp.Symbol("x", real=True)
+    G = B.concretize(npdf_(x) + x * ncdf_(x))
+    lemma = sp.simplify(sp.diff(G, x) - B.concretize(ncdf_(x))) == 0 and sp.limit(G, x, -sp.oo) == 0
+    ob("lemma g(d) = phi(d) + d Phi(d) > 0: g' = Phi > 0 and g(-oo) = 0", lemma, "decided by differentiation and a limit", fl_, "auxiliary lemma of the lookback inequalities")
+    d1 = (sp.log(S / K) + w ** 2 / 2) / w
+    r0 = sp.simplify(sp.expand_log(B.concretize(p0 - call - S * w * (npdf_(d1) + d1 * ncdf_(d1))), force=True))
+    ob("lookback >= european call (running maximum below the strike): difference == S w g(d1)", r0 == 0 and lemma, f"residual {r0}", fl_, "a lookback call is worth at least the European call")
+    m1 = (sp.log(S / M) + w ** 2 / 2) / w
+    m2 = m1 - w
+    call_m = S * ncdf_(m1) - M * ncdf_(m2)
+    r1 = sp.simplify(sp.expand_log(B.concretize(p1 - (M - K) - call_m - S * w * (npdf_(m1) + m1 * ncdf_(m1))), force=True))
+    same_fn = sp.simplify(sp.expand_log(B.concretize(call_m - call.subs(K, M)), force=True))
+    ob("lookback >= locked-in payoff M-K (running maximum above the strike): difference == call(S; strike M) + S w g(m1)", r1 == 0 and same_fn == 0 and lemma, f"residuals {r1}, {same_fn}", fl_,
+       "once the running maximum exceeds the strike the lookback is worth at least max - strike")
+    # monotone in M on S <= M:  M dp1/dM == h := M Phi(-m2) - S Phi(m1);  dh/dS < 0 and h(S=M) = 0  =>  h >= 0 for S <= M
+    h = M * SC.Ncdf(-m2) - S * SC.Ncdf(m1)
+    rh = sp.simplify(sp.expand_log(SC.lower(M * sp.diff(SC.lift(p1), M) - h), force=True))
+    dh = sp.diff(h, S)
+    h_at = sp.simplify(SC.lower(h).subs(S, M))
+    ob("lookback price is non-decreasing in the running maximum (M dP/dM == M Phi(-m2) - S Phi(m1) >= 0 on S <= M)", rh == 0 and SC.negative(dh) and h_at == 0,
+       f"residual {rh}; d/dS = {dh}; value at S=M: {h_at}", fl_, "a higher running maximum cannot lower the lookback price")
+
+
